@@ -182,6 +182,7 @@ static int run_line(char *line, int exno)
    pcm = (float *)malloc(sizeof(float) * (size_t)(fs / 400 * 48) * ch);
    js_open("new"); js_int("x", exno); js_int("ms", E.ms); js_int("fs", fs); js_int("ch", ch); js_int("app", app);
    js_int("S", E.S); js_int("C", E.C); js_int("fam", fam); js_int("exact", exact); js_close();
+   fflush(stdout);   /* if a later call aborts, the trace still names the execution it happened in */
    for (tok = strtok(bar + 1, " \t\r\n"); tok; tok = strtok(NULL, " \t\r\n")) {
       int v = atoi(tok + 1);
       switch (tok[0]) {
